@@ -34,6 +34,12 @@ impl<T> UnboundedSender<T> { #[verifier::external_body] pub fn send(&self, e: T)
 pub struct Node { pub version: u64, pub updated_at: i64, pub labels: LabelSet, pub properties: PropertyMap, pub data: NodeData }
 #[verifier::external_body] pub struct PropertyMap { m: u8 }
 impl Clone for PropertyMap { #[verifier::external_body] fn clone(&self) -> (r: Self) ensures r == *self { unimplemented!() } }
+/// read-only map methods code may call on a property map: contract-free
+impl PropertyMap {
+    #[verifier::external_body] pub fn is_empty(&self) -> bool { unimplemented!() }
+    #[verifier::external_body] pub fn len(&self) -> usize { unimplemented!() }
+    #[verifier::external_body] pub fn contains_key(&self, k: &str) -> bool { unimplemented!() }
+}
 #[verifier::external_body] pub struct NodeData { d: u8 }
 impl Clone for Node { #[verifier::external_body] fn clone(&self) -> (r: Self) ensures r == *self { unimplemented!() } }
 impl Node {
